@@ -473,8 +473,8 @@ fn rule_for(prop: &str) -> String {
     let common = "each case = (generated schema + dataset, generated query, generated arguments) from five PRNG tapes seeded by (VERIF_SEED, run index), executed by the real engine over the simulated adapter; ";
     let nontrivial = "a case is non-trivial when it was not discarded, at least one non-baseline schedule/hint/consumer decision actually fired in one of its executions, and the query produced >= 1 row or rejected >= 1 candidate; distinct = distinct digests of (schema text, query text, complete adapter event logs of all executions)";
     let specific = match prop {
-        "C01" => "oracle: row multiset under the lazy schedule S0 and under one random schedule with hint pruning equals the reference model's; ",
-        "C02" => "oracle: row sequence under 3 independently drawn read-ahead schedules and under 2-3 interleaved live result iterators equals the lazy baseline's; ",
+        "C01" => "oracle: row multiset under the lazy schedule S0 and under one random schedule with hint pruning equals the reference model's, and so does a third execution through the BasicAdapter flavour (blanket impl + helper functions, chunked read-ahead); ",
+        "C02" => "oracle: row sequence under 3 independently drawn read-ahead schedules and under 2-3 interleaved live result iterators equals the lazy baseline's, as does the BasicAdapter flavour; ",
         "C03" => "oracle: under S0, starting vertices pulled when row k is produced == least number of leading starting vertices contributing k rows (per-start counts measured with the engine itself), nothing pulled before the first next(), no adapter event after drop; consumer stops at tape-chosen k; ",
         "C04" => "oracle: row sequence with hint pruning at a tape-chosen subset of sites equals the hints-ignored run; ",
         "C05" => "oracle: every resolve_property(vid, p) has p in required_properties() at that call and in the list reported when vid was resolved; ",
@@ -493,7 +493,7 @@ fn rule_for(prop: &str) -> String {
 
 pub fn components_json() -> serde_json::Value {
     serde_json::json!({
-        "real_code": ["trustfall_core::schema::Schema::parse", "trustfall_core::frontend::parse", "trustfall_core::interpreter::execution::interpret_ir (whole interpreter)", "interpreter::hints (ResolveInfo, ResolveEdgeInfo, VertexInfo, DynamicallyResolvedValue)", "InterpretedQuery argument validation"],
+        "real_code": ["trustfall_core::schema::Schema::parse", "trustfall_core::frontend::parse", "trustfall_core::interpreter::execution::interpret_ir (whole interpreter)", "interpreter::hints (ResolveInfo, ResolveEdgeInfo, VertexInfo, DynamicallyResolvedValue)", "InterpretedQuery argument validation", "interpreter::basic_adapter (blanket impl Adapter for BasicAdapter, default resolve_typename) and interpreter::helpers (resolve_property_with, resolve_neighbors_with, resolve_coercion_using_schema): second adapter flavour in C01 C02 C09 C13 C21"],
         "stubs": ["data source (generated in-memory graph behind SimAdapter)", "consumer of the result iterator"],
     })
 }
